@@ -1,6 +1,10 @@
 import Req.Driver.Proto
 import Req.Pool.Dispatch
 import Req.Pool.Tls
+import Req.Pool.TlsFamily
+import Req.Pool.TlsPaths
+import Req.Pool.ProxyDispatch
+import Req.Pool.AltSvcState
 /-! Driver lanes of C12.
 
 * `c12route <force> <h3> <allowHTTP> <dialTLS> <handshake> <protos> <scheme> <reqH1> <alpn>
@@ -155,6 +159,191 @@ def laneCfg : List String → String
     | _, _, _, _, _, _ => "bad-op"
   | _ => "bad-op"
 
+def pFOp (s : String) : Option FOp :=
+  if s == "fork" then some .fork
+  else if s.startsWith "sw" then (s.drop 2).toString.toNat?.map .switch
+  else (pOp s).map .set
+
+/-- `c12fam <stack> <onlyH1> <host> <issuer> <names> <acceptableCAs> <member> <fops>`: the
+configuration stack `<stack>` of MEMBER `<member>` of the family builds for a new connection
+after the interleaved setters / forks / switches `<fops>` (from `C()`), judged against a
+server certificate of CA `<issuer>` for `<names>`; `cert=` is the client certificate
+presented to a server naming `<acceptableCAs>` (`-` = no list). -/
+def laneFam : List String → String
+  | [stack, onlyH1, host, issuer, names, acc, member, fops] =>
+    match pStack stack, pBool onlyH1, host.toNat?, issuer.toNat?, pDigits names, pDigits acc, member.toNat?,
+      (if fops == "-" then some [] else (fops.splitOn ",").mapM pFOp) with
+    | some s, some o, some h, some iss, some ns, some acc, some m, some os =>
+      match (famRun famInit os).members[m]? with
+      | none => "no-member"
+      | some r =>
+        let eff := effective s o h r
+        let ok := acceptsStd eff.toVerifyCfg ⟨iss, ns⟩
+        let cert := if ok then (match presented eff.certs acc with | some c => toString c | none => "-") else "-"
+        s!"sni={eff.serverName} alpn={sAlpns eff.protos} accept={if ok then 1 else 0} cert={cert}"
+    | _, _, _, _, _, _, _, _ => "bad-op"
+  | _ => "bad-op"
+
+def pPath : String → Option DialPath
+  | "direct" => some .h1Direct
+  | "tunnel" => some .h1Tunnel
+  | "h2own" => some .h2Own
+  | "quic" => some .h3Quic
+  | _ => none
+
+def pHs : String → Option (Option HsKind)
+  | "-" => some none
+  | "fp" => some (some .fingerprint)
+  | "user" => some (some .user)
+  | _ => none
+
+def sGiven : Option Given → String
+  | none => "-"
+  | some (.bare _) => "bare"
+  | some (.withPort _) => "port"
+
+def fpCopiedFull : List FpField := [.serverName, .rootCAs, .insecureSkipVerify, .certificates, .nextProtos]
+
+/-- `c12path <path> <dialTLS> <hs> <trustOK> <onlyH1> <force> <host> <issuer> <names> <acceptableCAs>
+<serverALPN> <ops>`: a NEW connection on dial path `<path>` of a client with the hooks
+`<dialTLS>`/`<hs>` after the TLS setters `<ops>`: who governs the handshake, what the hook is
+handed, and — when no user function governs — the SNI, the offered ALPN list (under the
+fingerprint the preset's list), the verdict against a server certificate of CA
+`<issuer>` for `<names>`, the client certificate presented, and whether `dialConn` hands the
+connection to HTTP/2. A user function (the lane's: verifies against the name it is given,
+trusts per `<trustOK>`, offers no ALPN) only yields its verdict. -/
+def lanePathWith (copied : List FpField) : List String → String
+  | [path, dial, hs, trust, onlyH1, force, host, issuer, names, acc, srvAlpn, ops] =>
+    match pPath path, pBool dial, pHs hs, pBool trust, pBool onlyH1, pForce force, host.toNat?, issuer.toNat?,
+      pDigits names, pDigits acc, pAlpns srvAlpn, pOps ops with
+    | some p, some d, some hk, some tr, some o, some f, some h, some iss, some ns, some acc, some sa, some os =>
+      let hooks : Hooks := ⟨d, hk⟩
+      let read := run (some initialCfg) os
+      match governs hooks p with
+      | .userDialTLS => s!"gov=dial given={sGiven (dialTLSGiven h p)} accept={if tr && ns.contains h then 1 else 0}"
+      | .userHandshake =>
+        let g := handshakeGiven h p
+        let a := match g with | some g => hookAccepts tr ns g | none => false
+        s!"gov=hs given={sGiven g} accept={if a then 1 else 0}"
+      | gov =>
+        match pathCfg copied hooks p o h read with
+        | none => "no-config"
+        | some eff =>
+          let fp := gov == .fingerprint
+          let neg := negotiate sa eff.protos
+          let ok := acceptsStd eff.toVerifyCfg ⟨iss, ns⟩ && neg.isSome
+          let cert := if ok then (match presented eff.certs acc with | some c => toString c | none => "-") else "-"
+          let dcfg : Cfg := ⟨f, false, false, d, hk.isSome, []⟩
+          let hand :=
+            if !ok then "-" else
+            match neg with
+            | none => "-"
+            | some pr =>
+              match p with
+              | .h2Own => if pr = some .h2 then "h2" else "no-h2"
+              | .h3Quic => "-"
+              | _ => if handsOff dcfg (some ⟨pr, true⟩) then "1" else "0"
+          let given := if fp then sGiven (handshakeGiven h p) else "-"
+          s!"gov={if fp then "fp" else "cfg"} given={given} sni={eff.serverName} alpn={sAlpns eff.protos} accept={if ok then 1 else 0} cert={cert} handoff={hand}"
+    | _, _, _, _, _, _, _, _, _, _, _, _ => "bad-op"
+  | _ => "bad-op"
+
+def lanePath := lanePathWith fpCopiedFull
+/-- the fingerprint closure of the un-repaired tree (used only to recognise the known finding) -/
+def lanePathU := lanePathWith fpCopiedUnpatched
+
+def pProxy (s : String) : Option (Option ProxyNet) :=
+  match s.splitOn ":" with
+  | ["-"] => some none
+  | [k, up, tun] => do
+    let k ← (match k with | "http" => some ProxyKind.http | "socks5" => some ProxyKind.socks5 | _ => none)
+    pure (some ⟨k, ← pBool up, ← pBool tun⟩)
+  | _ => none
+
+/-- `c12proxy <proxy> <the 17 arguments of c12route>` → `<route> via=<0|1|->` (`Dispatch.routeP`,
+`viaProxy`; `-` when the proxy is down: nothing to observe); `<proxy>` = `-` | `http:<up>:<tunnel>` | `socks5:<up>:<tunnel>`. -/
+def laneProxy : List String → String
+  | px :: rest =>
+    match pProxy px, parseRoute rest with
+    | some px, some (cfg, req, net) =>
+      let via := match px with
+        | some p => if !p.up then "-" else if viaProxy px cfg req net then "1" else "0"
+        | none => "0"
+      s!"{sRoute (routeP px cfg req net)} via={via}"
+    | _, _ => "bad-op"
+  | _ => "bad-op"
+
+/-- `c12offer <force> <reqH1> <protos>` → the ALPN list offered (`Dispatch.offered`). -/
+def laneOffer : List String → String
+  | [force, reqH1, protos] =>
+    match pForce force, pBool reqH1, pAlpns protos with
+    | some f, some r, some ps => sAlpns (offered ⟨f, false, false, false, false, ps⟩ ⟨.https, r⟩)
+    | _, _, _ => "bad-op"
+  | _ => "bad-op"
+
+/-- `c12alpn <force> <h3on> <reqH1> <protos> <serverALPN> <h3Up>`: a fresh client's first https
+request to an origin whose certificate it accepts → `offer=<list|none> quic=<0|1> route=<…>`:
+the ALPN list of the ClientHello the origin receives (`Dispatch.offered`; `none` when a forced
+HTTP/3 finds no QUIC listener), on which listener, and `Dispatch.route`. -/
+def laneAlpn : List String → String
+  | [force, h3on, reqH1, protos, srvAlpn, h3Up] =>
+    match pForce force, pBool h3on, pBool reqH1, pAlpns protos, pAlpns srvAlpn, pBool h3Up with
+    | some f, some h3on, some r, some ps, some sa, some up =>
+      let cfg : Cfg := ⟨f, h3on || f == some .h3, false, false, false, ps⟩
+      let req : Req := ⟨.https, r⟩
+      let net : Net := ⟨sa, true, up, true, false, .fail, false, false, false⟩
+      let quic := f == some .h3
+      let offer := if quic && !up then "none" else sAlpns (offered cfg req)
+      s!"offer={offer} quic={if quic then 1 else 0} route={sRoute (route cfg req net)}"
+    | _, _, _, _, _, _ => "bad-op"
+  | _ => "bad-op"
+
+section altsm
+open Req.Pool.AltSvc
+
+def pOrigin (s : String) : Option Origin :=
+  match s.splitOn "." with
+  | [h, p] => do pure ⟨.https, ← h.toNat?, ← p.toNat?⟩
+  | _ => none
+
+def pMas (s : String) : Option (List (Option Nat)) :=
+  if s == "-" then some [] else (s.splitOn "/").mapM fun x => if x == "n" then some none else x.toNat?.map some
+
+def pAltEvent (s : String) : Option Event :=
+  match s.splitOn ":" with
+  | ["h", o, now, mas] => do pure (.header (← pOrigin o) (← now.toNat?) (← pMas mas))
+  | ["d", o, rs] => do pure (.dialed (← pOrigin o) (← rs.toList.mapM fun c => if c == '1' then some true else if c == '0' then some false else none))
+  | ["r", o, now, ok] => do pure (.request (← pOrigin o) (← now.toNat?) (← pBool ok))
+  | _ => none
+
+def sPending (s : State) (o : Origin) : String :=
+  match s.pending o with
+  | none => "-"
+  | some p => s!"{p.idx}{if p.ready then "r" else "w"}"
+
+/-- `c12altsm <events>` → per event the disposition of a request (`A1`/`A0` = through the Alt-Svc
+shortcut, response / error; `N` = normal dispatch) and the pending entry of the event's origin
+afterwards (`-` | `<idx>r` ready | `<idx>w` waiting), from the empty state
+(`Req.Pool.AltSvc.step`). -/
+def laneAltSm : List String → String
+  | [evs] =>
+    match (evs.splitOn ",").mapM pAltEvent with
+    | none => "bad-op"
+    | some es =>
+      let (_, out) := es.foldl (fun (acc : State × List String) e =>
+        let (s', served) := step acc.1 e
+        let o := match e with | .header o _ _ => o | .dialed o _ => o | .request o _ _ => o
+        let tag := match e, served with
+          | .header .., _ => "h"
+          | .dialed .., _ => "d"
+          | .request .., some (.alt true) => "rA1"
+          | .request .., some (.alt false) => "rA0"
+          | .request .., _ => "rN"
+        (s', acc.2 ++ [tag ++ sPending s' o])) (State.empty, [])
+      ",".intercalate out
+  | _ => "bad-op"
+end altsm
+
 def pSetting : String → Option Setting
   | "f1" => some .forceH1
   | "f2" => some .forceH2
@@ -190,7 +379,14 @@ def lanes : List (String × (List String → String)) := [
   ("c12setu", laneSetU),
   ("c12route", laneRoute),
   ("c12routeu", laneRouteU),
-  ("c12cfg", laneCfg)
+  ("c12cfg", laneCfg),
+  ("c12fam", laneFam),
+  ("c12path", lanePath),
+  ("c12pathu", lanePathU),
+  ("c12proxy", laneProxy),
+  ("c12offer", laneOffer),
+  ("c12alpn", laneAlpn),
+  ("c12altsm", laneAltSm)
 ]
 
 end Req.Driver.L.C12
